@@ -282,10 +282,11 @@ fn bfs(n: usize, eng: &mut Eng) {
 
 /// Value clause: own/partner x {state, command} presence x weak timestamp orders.
 pub fn values(eng: &mut Eng) {
+    for equal_values in [false, true] {
     let s_own = State::new_raw(1.0, 2.0, 3.0);
-    let s_par = State::new_raw(8.0, 16.0, 32.0);
+    let s_par = if equal_values { s_own } else { State::new_raw(8.0, 16.0, 32.0) };
     let c_own = Command::Velocity(5.0);
-    let c_par = Command::Position(-7.0);
+    let c_par = if equal_values { c_own } else { Command::Position(-7.0) };
     for linked in [false, true] {
         for mask in 0..16u32 {
             let present: Vec<usize> = (0..4).filter(|b| mask & (1 << b) != 0).collect();
@@ -300,7 +301,8 @@ pub fn values(eng: &mut Eng) {
                     eng.nontrivial += 1;
                 }
                 let case = format!(
-                    "linked={} own_state={} partner_state={} own_cmd={} partner_cmd={} times={:?}",
+                    "equal_values={} linked={} own_state={} partner_state={} own_cmd={} partner_cmd={} times={:?}",
+                    equal_values,
                     linked,
                     mask & 1 != 0,
                     mask & 2 != 0,
@@ -438,6 +440,7 @@ pub fn values(eng: &mut Eng) {
                 eng.sample(|| format!("{} -> a reads {:?}", case, out[0].0));
             }
         }
+    }
     }
 }
 
